@@ -30,6 +30,7 @@ def finish(prop, pc, tier, seed, results, kani_res, wall, update_baseline=False)
         known_by_obl.setdefault(k["obligation"], []).append(k)
 
     undecided = []
+    degraded = []      # proof hints that could not be placed (function restructured); contracts are still checked
     obligations = {}   # id -> record
     all_ids_by_unit = {}
     trusted = []
@@ -41,6 +42,8 @@ def finish(prop, pc, tier, seed, results, kani_res, wall, update_baseline=False)
         cmds.append(r.cmd)
         for u in r.undecided:
             undecided.append("[%s] %s" % (r.name, u))
+        for dgr in getattr(r, "degraded", []):
+            degraded.append("[%s] %s" % (r.name, dgr))
         if r.map is None:
             continue
         all_ids_by_unit[r.name] = sorted(r.obligations.keys())
@@ -133,7 +136,7 @@ def finish(prop, pc, tier, seed, results, kani_res, wall, update_baseline=False)
                                                   "function": o["fn"],
                                                   "verifier_output": "\n".join(d.get("rendered", "") for d in (o["diag"] or []))
                                                   if isinstance(o["diag"], list) else (o["diag"] or "")}],
-               "failing_inputs": [], "tree": _tree_id()}
+               "failing_inputs": [], "tree": _tree_id(), "proof_hints_not_placed": degraded}
         found = False
         cand = []
         if o.get("playback"):
@@ -189,6 +192,7 @@ def finish(prop, pc, tier, seed, results, kani_res, wall, update_baseline=False)
             "bounded_stand_ins": [o["id"] + ": " + str(o.get("bounded")) for o in obligations.values() if o.get("bounded")],
             "unverified_residue": pc.get("residue", []),
             "undecided": undecided,
+            "proof_hints_not_placed": degraded,
             "failed_obligations": [o["id"] for o in violations],
             "all_obligation_ids": sorted(obligations.keys()),
         },
@@ -205,6 +209,8 @@ def finish(prop, pc, tier, seed, results, kani_res, wall, update_baseline=False)
         print(ln)
     for u in undecided:
         print("UNDECIDED: " + u)
+    for dgr in degraded:
+        print("NOTE: proof hint not placed, " + dgr)
     print("%s: %d obligations, %d discharged, %d known findings, %d violations, %d undecided notes, %.1fs" % (
         prop, n_obl, discharged, ev["coverage"]["known_findings"], len(violations), len(undecided), wall))
     if violations:
